@@ -316,7 +316,7 @@ LEVELS = {"C07": "fault_enumeration"}
 
 RULES = {
     "C09": "one case = one simulated run: a universe of 1-2 models, 2-5 components, 2-5 variables, 1-3 units, 1-3 resets, 0-2 import sources built through the API "
-           "(optionally with structurally identical siblings and parentless entities), then 10-60 steps drawn from every public mutator and query of the object model "
+           "(optionally with structurally identical siblings, cousins and deep copies - up to three of a kind in different branches - and parentless entities), then 10-60 steps drawn from every public mutator and query of the object model "
            "(add/remove/take/replace/contains by index, name and pointer, removeAll*, moves, self/ancestor insertion, equivalences, attribute setters, clone, DROP = the simulator "
            "releases its strong reference) and from 94 service entry points (Annotator, Importer, Analyser, AnalyserExternalVariable, AnalyserModel, Validator, Printer, Generator, "
            "model/component/units queries), each argument slot optionally replaced by a bad value {null, never added, owner destroyed, index == count, index == SIZE_MAX, unknown "
@@ -328,11 +328,13 @@ RULES = {
            "original, import sources included) are checked, every entity of the copy becomes a tracked handle, and the remaining steps mutate or DROP either side while the frame "
            "condition of every step asserts that the other side's snapshot and attribute digests do not change. distinct / non-trivial as for C09.",
     "C12": "one case = one simulated run: 2-4 client tasks whose scripts (parse / API-build / print / validate / analyse with external variables / generate C or Python / "
-           "resolve / flatten / clone / equals over documents of the repository's tests/resources corpus, <= 24 kB) are interleaved by the seeded scheduler, on fresh and on "
+           "resolve / flatten / clone / equals / annotator lookups over documents of the repository's tests/resources corpus, <= 24 kB) are interleaved by the seeded scheduler, on fresh and on "
            "reused service instances, under a seeded heap layout. Each run is preceded by auxiliary runs in fresh processes: the same plan under another allocator policy "
            "(layout twin) and the dependency slices of up to two probe steps (isolation). Oracles: same call identity (op, documented instance state, digest of the argument's "
            "canonical dump) => same observation; main run == layout twin; main run == isolation slice; arguments dump identically before/after; results still held are "
-           "re-dumped at the end. distinct = distinct event-log fingerprints; non-trivial = at least one cross-occurrence, twin or isolation comparison was made.",
+           "re-dumped at the end. Two batches of the import engine (generated import graphs on the simulated file layer) add: a resolution repeated with nothing in "
+           "between gives the same verdict and error/warning issues, and flattenModel leaves its input and the library models unchanged. "
+           "distinct = distinct event-log fingerprints; non-trivial = at least one cross-occurrence, twin or isolation comparison was made.",
     "C13": "one case = one simulated run: a generated model (1-5 components, units with unit items, resets, imports, equivalences; ids absent / unique / duplicated / "
            "auto-id shaped around the annotator's counter) shared by an annotator client (setModel, assignAllIds both overloads, assignIds for every type, every assignId "
            "overload, clearAllIds, lookup batteries, printModel(model, true)) and an editor client that sets or clears ids on any item kind (including exactly the next id the "
@@ -342,9 +344,11 @@ RULES = {
     "C07": "one case = one simulated run over a generated import graph (2-6 files in 1-3 directories; units and component imports, chains, diamonds, "
            "shared import elements, encapsulation below imports) served by the simulated file layer. Sweep batch: every file x every single fault "
            "(absent, unreadable, 7 truncation classes, failing reads in EOF and exception flavour, replaced by HTML / garbage / empty / directory / CellML 1.1, "
-           "every import reference broken, every import chain closed into a cycle, cycles of ordinary units) applied alone, resolved, flattened, repaired and "
-           "resolved again (fresh importer / removeAllModels / same importer). Seeded batch: multi-fault sequences, in-flight changes at open() yield points, two clients, "
-           "shared importers, stale libraries. Oracle = reference resolver over what the file layer actually served. distinct = distinct event-log fingerprints; "
+           "every import reference broken, every import chain closed into a cycle, cycles of ordinary units, an imported entity with a parser error of its own, an "
+           "imported entity renamed in the file that defines it) applied alone, resolved, flattened, repaired and resolved again twice (fresh importer / removeAllModels / "
+           "same importer), by a client that either re-parses its model and drops old importers or keeps its model object and its old importers alive. Seeded batch: "
+           "multi-fault sequences, in-flight changes at open() yield points, two clients, shared importers, stale libraries, kept importers. Oracle = reference resolver "
+           "over what the file layer actually served; a resolution repeated with nothing in between answers the same (C12). distinct = distinct event-log fingerprints; "
            "non-trivial = at least one fault was active on a needed file (or a flattening succeeded) while a verdict was compared.",
     "C15": "one case = one simulated run of the import or equiv engine with the C15 monitor evaluated after every service call (counts, per-level accessors against the "
            "level-filtered issue sequence, out-of-range indices, description, rule heading/URL, typed item) plus the failure-explained rule; once per run every value of "
